@@ -295,6 +295,23 @@ func runC10(c *explore.Ctx) {
 	} else {
 		mergeSweep(c, 2, 5, 2, cfgs[:1], check)
 	}
+	// NORMS: norms with unusual float32 bit patterns (>= 2: bit 30 set; huge, maximal, denormal,
+	// minimal) - the norm is an opaque float32 in postings and bit-packed in 1-hit dictionary values
+	for _, nm := range model.NormModes() {
+		nm := nm
+		model.WithNormMode(nm, func() {
+			scope := fmt.Sprintf("MIX(5,2)/norms%d", nm)
+			gen.Mix(5, 2, "m", func(idx int64, batch []gen.Doc, kinds []int) bool {
+				if c.MineIdx(scope, idx) {
+					c10Built(c, scope, idx, batch, 1025, fmt.Sprintf("%s #%d %s", scope, idx, model.BatchString(batch)), false)
+				}
+				return !c.Expired()
+			})
+			cfg := cfgs[0]
+			cfg.Name = fmt.Sprintf("prod-norms%d", nm)
+			mergeSweep(c, 2, 3, 2, []mergeCfg{cfg}, check)
+		})
+	}
 	goldenCheck(c)
 }
 
@@ -388,6 +405,18 @@ func goldenCases() []goldenCase {
 	addMerged("merge-mix-mode2", mixA, mixB, []uint32{0}, nil, 2)
 	addMerged("merge-large", func() []model.Doc { return gen.Large(1100, 0, 1) }, func() []model.Doc { return dvcBatch(1030, 5) }, []uint32{0, 5, 1024}, []uint32{1, 1029}, 1025)
 	addMerged("merge-all-dropped", mixA, func() []model.Doc { return nil }, []uint32{0, 1, 2}, nil, 1025)
+	// files written under norm tables with unusual float32 bit patterns
+	for _, nm := range model.NormModes() {
+		nm := nm
+		n0 := len(out)
+		addBuilt(fmt.Sprintf("mix-norms%d", nm), mixA, 1025)
+		addMerged(fmt.Sprintf("merge-mix-norms%d", nm), mixA, mixB, []uint32{1}, []uint32{0}, 1025)
+		for i := n0; i < len(out); i++ {
+			g := out[i]
+			out[i].want = func() (l *model.LSeg) { model.WithNormMode(nm, func() { l = g.want() }); return }
+			out[i].write = func() (b []byte, err error) { model.WithNormMode(nm, func() { b, err = g.write() }); return }
+		}
+	}
 	return out
 }
 
